@@ -290,6 +290,33 @@ func c20Refund(c *eng.Ctx, r *eng.Report) {
 							bad = append(bad, "UpdateMiner is on the below-minimum edge")
 						}
 					}
+					// the per-type tests extracted into a boolean helper that is handed `left`
+					if hc, isC := iff.Cond.(*ssa.Call); isC {
+						if h := hc.Call.StaticCallee(); h != nil && h.Pkg == fn.Pkg && h.Blocks != nil {
+							var prm *ssa.Parameter
+							for i, a := range hc.Call.Args {
+								if a == ssa.Value(left) && i < len(h.Params) {
+									prm = h.Params[i]
+								}
+							}
+							n := 0
+							if prm != nil {
+								for _, hb := range h.Blocks {
+									for _, hin := range hb.Instrs {
+										if bo, isB := hin.(*ssa.BinOp); isB && bo.Op == token.LSS && bo.X == ssa.Value(prm) {
+											n++
+										}
+									}
+								}
+							}
+							if n > 0 && b.Succs[0] == rm[0].Block() {
+								thr += n
+							}
+							if n > 0 && b.Succs[0] == up[0].Block() {
+								bad = append(bad, "UpdateMiner is on the below-minimum edge")
+							}
+						}
+					}
 				}
 			}
 			if thr < 2 {
@@ -373,47 +400,14 @@ func c20Keys(c *eng.Ctx, r *eng.Report) {
 		r.Check(show(got) == show(want), rule, "key-depth:UpdateMiner", c.Pos(um.Pos()), "writes "+show(got), "UpdateMiner writes "+show(got)+", reference is "+show(want))
 	}
 	// by-id reader
-	got := map[string]int{}
-	if f := c.Func("service", "(*MinerManager).getMinerStake"); f != nil {
-		for _, call := range callsNamed(f, "(*storage/account.AccountDB).GetData") {
-			got["stake"] = shaDepth(call.Call.Args[2])
-		}
-	}
-	if f := c.Func("service", "(*MinerManager).getMinerAccount"); f != nil {
-		for _, call := range callsNamed(f, "(*storage/account.AccountDB).GetData") {
-			got["account"] = shaDepth(call.Call.Args[2])
-		}
-	}
 	if f := c.Func("service", "(*MinerManager).GetMinerById"); f != nil {
-		for _, call := range callsNamed(f, "(*storage/account.AccountDB).GetData") {
-			if d := shaDepth(call.Call.Args[2]); d > 0 {
-				got["status"] = d
-			}
-		}
+		got := c20MinerFieldDepths(f, 1)
 		r.Check(show(got) == show(want), rule, "key-depth:GetMinerById", c.Pos(f.Pos()), "reads "+show(got), "GetMinerById reads "+show(got)+", the writer uses "+show(want)+": lookup by id returns a different stake/account/status than was written")
 	}
 	// iterator
 	cur := c.Func("service", "(*MinerIterator).Current")
 	if r.Anchor(cur != nil, rule, "(*MinerIterator).Current") {
-		got := map[string]int{}
-		for _, b := range cur.Blocks {
-			for _, in := range b.Instrs {
-				st, ok := in.(*ssa.Store)
-				if !ok {
-					continue
-				}
-				_, f := eng.FieldOf(st.Addr)
-				role := map[string]string{"Stake": "stake", "Account": "account", "Status": "status"}[f]
-				if role == "" {
-					continue
-				}
-				for _, call := range callsNamed(cur, "(*storage/account.AccountDB).GetData") {
-					if valueDerivesFrom(st.Val, call) {
-						got[role] = shaDepth(call.Call.Args[2])
-					}
-				}
-			}
-		}
+		got := c20MinerFieldDepths(cur, 1)
 		r.Check(show(got) == show(want), rule, "key-depth:MinerIterator.Current", c.Pos(cur.Pos()), "reads "+show(got), "MinerIterator.Current reads "+show(got)+", the writer uses "+show(want)+": iteration / lookup by account disagrees with lookup by id")
 	}
 	rm := c.Func("service", "(*MinerManager).RemoveMiner")
@@ -796,10 +790,10 @@ func c20WhoRemovesMiners(c *eng.Ctx, r *eng.Report) {
 	const rule = "R20.12"
 	r.Min(rule, 3)
 	allowed := map[string]string{
-		"(*service.RefundManager).GetRefundStake":         "the refund path: `left` was computed from the recorded stake and the refund is scheduled by the caller",
-		"(*service.MinerManager).RemoveUnusedValidator":   "one-off clean-up of validators that never worked (proposal height)",
-		"core.removeUnusedValidator":                      "one-off clean-up at a proposal height",
-		"core.removeUnusedValidator1":                     "one-off clean-up at a proposal height",
+		"(*service.RefundManager).GetRefundStake":       "the refund path: `left` was computed from the recorded stake and the refund is scheduled by the caller",
+		"(*service.MinerManager).RemoveUnusedValidator": "one-off clean-up of validators that never worked (proposal height)",
+		"core.removeUnusedValidator":                    "one-off clean-up at a proposal height",
+		"core.removeUnusedValidator1":                   "one-off clean-up at a proposal height",
 	}
 	n := 0
 	for _, fn := range c.ModFuncs() {
@@ -917,4 +911,59 @@ func c20RemoveAlwaysWrites(c *eng.Ctx, r *eng.Report) {
 		}
 	}
 	r.Check(bad == "" && len(writes) >= 6, rule, "RemoveMiner:always-writes", c.Pos(fn.Pos()), fmt.Sprintf("%d writes; every return follows one", len(writes)), "RemoveMiner can return (at "+bad+") without a single write to the miner's record: GetRefundStake has already computed and scheduled the refund, so the stake slot keeps its old value next to the escrowed amount — for a miner whose controlling account is a contract and whose stake drops to exactly 0, stake no longer equals applied + added − refunded, GetValidatorsStake still counts it, and the refund-all can be repeated to mint tokens")
+}
+
+// c20MinerFieldDepths: for the stores fn makes into Miner.Stake / .Account /
+// .Status, the hash depth of the registry key the stored value was read under.
+// The read may stand in fn, in a service function whose result is stored
+// (getMinerStake), or — inline > 0 — in a private helper that fills the record.
+func c20MinerFieldDepths(fn *ssa.Function, inline int) map[string]int {
+	got := map[string]int{}
+	inService := func(h *ssa.Function) bool {
+		return h != nil && h != fn && h.Blocks != nil && h.Pkg == fn.Pkg
+	}
+	for _, b := range fn.Blocks {
+		for _, in := range b.Instrs {
+			st, ok := in.(*ssa.Store)
+			if !ok {
+				continue
+			}
+			t, f := eng.FieldOf(st.Addr)
+			role := map[string]string{"Stake": "stake", "Account": "account", "Status": "status"}[f]
+			if role == "" || !strings.HasSuffix(t, "types.Miner") {
+				continue
+			}
+			for _, call := range callsNamed(fn, "(*storage/account.AccountDB).GetData") {
+				if valueDerivesFrom(st.Val, call) {
+					got[role] = shaDepth(call.Call.Args[2])
+				}
+			}
+			for _, s := range eng.Sites(fn) {
+				hc, isC := s.Instr.(*ssa.Call)
+				if h := s.Static(); isC && inService(h) && valueDerivesFrom(st.Val, hc) {
+					for _, call := range callsNamed(h, "(*storage/account.AccountDB).GetData") {
+						got[role] = shaDepth(call.Call.Args[2])
+					}
+				}
+			}
+		}
+	}
+	if inline > 0 {
+		for _, s := range eng.Sites(fn) {
+			h := s.Static()
+			if !inService(h) || token.IsExported(h.Name()) {
+				continue
+			}
+			off := 0
+			for _, a := range s.Common().Args {
+				if d := shaDepth(a); d > off {
+					off = d
+				}
+			}
+			for k, v := range c20MinerFieldDepths(h, inline-1) {
+				got[k] = v + off
+			}
+		}
+	}
+	return got
 }
